@@ -118,6 +118,52 @@ def hexDigit (c : Char) : M Int :=
   else if 65 ≤ n ∧ n ≤ 70 then pure (Int.ofNat (n - 55))
   else throw "ValueError"
 
+/-! ### ordering (`<` of python on ints, characters, strings / lists (lexicographic) and tuples) and `sorted` -/
+class PyOrd (α : Type) where
+  lt : α → α → Bool
+instance : PyOrd Int := ⟨fun a b => decide (a < b)⟩
+instance : PyOrd Char := ⟨fun a b => decide (a.toNat < b.toNat)⟩
+
+def listLt {α} [PyOrd α] [BEq α] : List α → List α → Bool
+  | [], [] => false
+  | [], _ :: _ => true
+  | _ :: _, [] => false
+  | a :: as, b :: bs => if PyOrd.lt a b then true else if a == b then listLt as bs else false
+instance {α} [PyOrd α] [BEq α] : PyOrd (List α) := ⟨listLt⟩
+instance {α β} [PyOrd α] [PyOrd β] [BEq α] : PyOrd (α × β) :=
+  ⟨fun a b => PyOrd.lt a.1 b.1 || (a.1 == b.1 && PyOrd.lt a.2 b.2)⟩
+
+/-- insert `x` behind every element whose key is not greater (stability) -/
+def insertByKey {α κ} [PyOrd κ] (key : α → κ) (x : α) : List α → List α
+  | [] => [x]
+  | y :: ys => if PyOrd.lt (key x) (key y) then x :: y :: ys else y :: insertByKey key x ys
+
+/-- `sorted(l, key=key)`: stable -/
+def sorted {α κ} [PyOrd κ] (key : α → κ) (l : List α) : List α := l.foldl (fun acc x => insertByKey key x acc) []
+
+/-- `min(l)` for a list of strings: the first minimal element -/
+def minStr : List (List Char) → M (List Char)
+  | [] => throw "ValueError"
+  | a :: l => pure (l.foldl (fun m x => if PyOrd.lt x m then x else m) a)
+
+/-- `int(s)` for a plain decimal string (optional sign; python also accepts surrounding blanks and underscores: not modelled) -/
+def digitsToNat : List Char → Option Nat
+  | [] => none
+  | cs => cs.foldl (fun acc c => match acc with
+      | none => none
+      | some n => if 48 ≤ c.toNat ∧ c.toNat ≤ 57 then some (10 * n + (c.toNat - 48)) else none) (some 0)
+def intOfStr : List Char → M Int
+  | '-' :: cs => match digitsToNat cs with | some n => pure (-(Int.ofNat n)) | none => throw "ValueError"
+  | '+' :: cs => match digitsToNat cs with | some n => pure (Int.ofNat n) | none => throw "ValueError"
+  | cs => match digitsToNat cs with | some n => pure (Int.ofNat n) | none => throw "ValueError"
+
+/-- `hex(n)[2:]`: the lowercase hexadecimal digits of `n ≥ 0` (for negative `n` python's `'-0x..'[2:]` is `'x..'`) -/
+def hexDigitsNat (n : Nat) : List Char := (Nat.toDigits 16 n)
+def hexStr (n : Int) : List Char := if 0 ≤ n then hexDigitsNat n.toNat else 'x' :: hexDigitsNat (-n).toNat
+
+/-- `n.bit_length()` -/
+def bitLength (n : Int) : Int := if n = 0 then 0 else Int.ofNat (Nat.log2 n.natAbs + 1)
+
 /-! ### dicts (insertion ordered) -/
 abbrev Dict (κ ν : Type) := List (κ × ν)
 
